@@ -226,14 +226,36 @@ type RawSPS struct {
 
 // Width 视频宽度（像素）
 func (sps *RawSPS) Width() int {
-	w := (sps.PicWidthInMbsMinus1+1)*16 - sps.FrameCropLeftOffset*2 - sps.FrameCropRightOffset*2
-	return int(w)
+	cropUnitX, _ := sps.cropUnits()
+	w := (int(sps.PicWidthInMbsMinus1)+1)*16 - cropUnitX*(int(sps.FrameCropLeftOffset)+int(sps.FrameCropRightOffset))
+	return w
+}
+
+// cropUnits 裁剪单位（H.264 7-19 ~ 7-22）：取决于色度格式和是否场编码
+func (sps *RawSPS) cropUnits() (cropUnitX, cropUnitY int) {
+	frameOnly := int(sps.FrameMbsOnlyFlag)
+	chromaArrayType := sps.ChromaFormatIdc
+	if sps.SeparateColourPlaneFlag == 1 {
+		chromaArrayType = 0
+	}
+	subWidthC, subHeightC := 1, 1
+	switch chromaArrayType {
+	case 1: // 4:2:0
+		subWidthC, subHeightC = 2, 2
+	case 2: // 4:2:2
+		subWidthC, subHeightC = 2, 1
+	}
+	if chromaArrayType == 0 {
+		return 1, 2 - frameOnly
+	}
+	return subWidthC, subHeightC * (2 - frameOnly)
 }
 
 // Height 视频高度（像素）
 func (sps *RawSPS) Height() int {
-	h := (2-uint16(sps.FrameMbsOnlyFlag))*(sps.PicHeightInMapUnitsMinus1+1)*16 - sps.FrameCropTopOffset*2 - sps.FrameCropBottomOffset*2
-	return int(h)
+	_, cropUnitY := sps.cropUnits()
+	h := (2-int(sps.FrameMbsOnlyFlag))*(int(sps.PicHeightInMapUnitsMinus1)+1)*16 - cropUnitY*(int(sps.FrameCropTopOffset)+int(sps.FrameCropBottomOffset))
+	return h
 }
 
 // FrameRate Video frame rate
